@@ -223,7 +223,9 @@ impl Untrusted {
                 let mut n = 0u64;
                 loop {
                     let m = Meter::start(&ctx);
+                    std::hint::black_box(it.size_hint());
                     let item = it.next();
+                    std::hint::black_box(it.size_hint());
                     let v = m.stop(&format!("raw iterator step {n} of point cloud {k}"), b, st);
                     if v.is_some() {
                         note(v);
@@ -264,7 +266,9 @@ impl Untrusted {
                 let mut n = 0u64;
                 loop {
                     let m = Meter::start(&ctx);
+                    std::hint::black_box(it.size_hint());
                     let item = it.next();
+                    std::hint::black_box(it.size_hint());
                     let v = m.stop(&format!("simple iterator step {n} of point cloud {k}"), b, st);
                     if v.is_some() {
                         note(v);
